@@ -5,7 +5,7 @@ import PrqlModel.Model.Lit
 `lit_token\t<src>`        → `<Kind line as in Drv.Lex>` | `none`      (the slice as exactly one token)
 `sql_quote\t<value>`      → code points of `sqlQuote value`
 `sql_quote_std\t<value>`  → code points of plain doubling
-`sql_quote_patched\t<v>`  → code points after the pre-doubling repair
+`sql_quote_raw\t<v>`      → code points of sqlparser's printer on the un-doubled value
 `sql_lex\t<mode>\t<text>` → `some <value>|<rest>` | `none`   mode ∈ std, bs, bsw
 `emit_lit\t<src>`         → code points of the SQL text of the literal | `outside` | `none`
 `fstr\t<content>`         → items `S<cps>` / `E<part>/<part>…[:F<cps>]` separated by `;` | `none`
@@ -27,7 +27,7 @@ def handle (fields : List String) : Option String :=
   | ["lit_token", s] => some (match tokenOfSlice (decStr s) with | some k => Drv.Lex.kind k | none => "none")
   | ["sql_quote", v] => some (encStr (sqlQuote (decStr v)))
   | ["sql_quote_std", v] => some (encStr (sqlQuoteStd (decStr v)))
-  | ["sql_quote_patched", v] => some (encStr (sqlQuotePatched (decStr v)))
+  | ["sql_quote_raw", v] => some (encStr (sqlQuoteRaw (decStr v)))
   | ["sql_lex", "std", t] => some (optPair (sqlLexString (decStr t)))
   | ["sql_lex", "bs", t] => some (optPair (sqlLexStringBs false (decStr t)))
   | ["sql_lex", "bsw", t] => some (optPair (sqlLexStringBs true (decStr t)))
